@@ -924,6 +924,10 @@ func isTdxTcbSvnHigherOrEqual(teeTcbSvn []byte, tdxTcbcomponents []pcs.TcbCompon
 	if len(teeTcbSvn) != len(tdxTcbcomponents) {
 		return false
 	}
+	if len(teeTcbSvn) < 2 {
+		// No TDX module version byte to look at: such a TEE TCB SVN matches no level.
+		return false
+	}
 	start := 0
 	if teeTcbSvn[1] > 0 {
 		start = 2
